@@ -46,6 +46,7 @@ type Opts struct {
 	IgnoreCC      bool          `json:"ignore_cc"`
 	ForceDefault  bool          `json:"force_default"`
 	DefaultMaxAge time.Duration `json:"default_max_age"`
+	DefaultZero   bool          `json:"default_zero,omitempty"` // default_max_age is exactly 0 (DefaultMaxAge == 0 means "the harness's usual hour")
 	RetryInvalid  bool          `json:"retry_invalid_range"`
 	Retry416      bool          `json:"retry_416"`
 	MemBudget     int           `json:"mem_budget"`
@@ -187,6 +188,9 @@ func NewConfig(o Opts, cacheDir string) *config.Config {
 	SetBase(&cfg.Proxy.CachePolicy.IgnoreCacheControl, o.IgnoreCC)
 	SetBase(&cfg.Proxy.CachePolicy.ForceDefaultMaxAge, o.ForceDefault)
 	SetBase(&cfg.Proxy.CachePolicy.DefaultMaxAge, duration.Duration(o.DefaultMaxAge))
+	if o.DefaultZero {
+		SetBase(&cfg.Proxy.CachePolicy.DefaultMaxAge, duration.Duration(0))
+	}
 	SetBase(&cfg.Cache.File.Dir, cacheDir)
 	if o.Backend == "file" {
 		SetBase(&cfg.Cache.Type, config.CacheTypeFile)
